@@ -5,6 +5,7 @@ import (
 	"go/constant"
 	"go/token"
 	"go/types"
+	"math"
 	"strconv"
 	"strings"
 
@@ -31,8 +32,8 @@ func (p *Prog) LookaheadAccesses(fn *ssa.Function) []IndexOb {
 	Instrs(fn, func(in ssa.Instruction) {
 		switch x := in.(type) {
 		case *ssa.IndexAddr:
-			if onlyStoredTo(x) {
-				return
+			if onlyStoredTo(x) && staticLen(x.X) < 0 {
+				return // writes into growing output buffers are out of scope; fixed-size arrays are not
 			}
 			if ob, ok := lc.indexOb(in, x.X, x.Index); ok {
 				out = append(out, ob)
@@ -244,6 +245,15 @@ func classify(x, idx ssa.Value) (shape string, v ssa.Value, c int64, ok bool) {
 	}
 	b, isB := stripConv(idx).(*ssa.BinOp)
 	if !isB {
+		// a plain variable indexing a fixed-size array (lookup tables): the index type must fit or be bounded
+		if staticLen(x) >= 0 {
+			if bt, ok := idx.Type().Underlying().(*types.Basic); ok {
+				if bt.Kind() == types.Uint8 && staticLen(x) >= 256 {
+					return "", nil, 0, false
+				}
+				return "arrayvar", idx, 0, true
+			}
+		}
 		return "", nil, 0, false
 	}
 	switch b.Op {
@@ -288,6 +298,43 @@ func (lc *laCtx) indexOb(in ssa.Instruction, x, idx ssa.Value) (IndexOb, bool) {
 		ob.Ok, ob.Why = lc.sumBelowLen(in, x, v, c, true)
 	case "len-c":
 		ob.Ok, ob.Why = lc.lenAtLeast(in, x, c)
+	case "arrayvar":
+		e := Expr(v)
+		lo, hi, _ := ob.Facts.Range(e)
+		if !exactFact(ob.Facts, e) {
+			lo, hi = math.MinInt64, math.MaxInt64
+		}
+		// one step of transitivity: v <= w / v < w with w bounded
+		for _, a := range ob.Facts {
+			if a.L != e {
+				continue
+			}
+			_, whi, _ := ob.Facts.Range(a.R)
+			if !exactFact(ob.Facts, a.R) {
+				continue
+			}
+			switch a.Op {
+			case "<=":
+				if whi < hi {
+					hi = whi
+				}
+			case "<":
+				if whi-1 < hi {
+					hi = whi - 1
+				}
+			}
+		}
+		nonneg := lo >= 0
+		if !nonneg && lc != nil && lc.p != nil {
+			if ok, _ := lc.p.NonNeg(v, in); ok {
+				nonneg = true
+			}
+		}
+		if nonneg && hi < sl {
+			ob.Ok, ob.Why = true, fmt.Sprintf("index bounded to [0,%d] for an array of %d", hi, sl)
+		} else {
+			ob.Ok, ob.Why = false, fmt.Sprintf("the array has %d elements and no dominating guard bounds the index %s to 0..%d", sl, e, sl-1)
+		}
 	case "countdown":
 		lo, _, _ := ob.Facts.Range(Expr(v))
 		if lo >= 0 && exactFact(ob.Facts, Expr(v)) {
@@ -326,6 +373,31 @@ func (lc *laCtx) sliceBoundOb(in ssa.Instruction, x, bound ssa.Value, which stri
 		ob.Ok, ob.Why = lc.sumBelowLen(in, x, v, c, false)
 	case "len-c":
 		ob.Ok, ob.Why = lc.lenAtLeast(in, x, c)
+	case "arrayvar":
+		// x[:n] with n the number of bytes a library encoder wrote into x itself
+		if call, ok := stripConv(v).(*ssa.Call); ok {
+			if sc := call.Call.StaticCallee(); sc != nil && sc.Pkg != nil && sc.Pkg.Pkg.Path() == "unicode/utf8" && sc.Name() == "EncodeRune" && len(call.Call.Args) > 0 {
+				if sl2, ok := call.Call.Args[0].(*ssa.Slice); ok && Expr(sl2.X) == Expr(x) {
+					ob.Ok, ob.Why = true, "utf8.EncodeRune returns the number of bytes written into this very buffer"
+					return ob, true
+				}
+			}
+		}
+		e := Expr(v)
+		lo, hi, _ := ob.Facts.Range(e)
+		if !exactFact(ob.Facts, e) {
+			lo, hi = math.MinInt64, math.MaxInt64
+		}
+		nonneg := lo >= 0
+		if !nonneg {
+			if ok, _ := lc.p.NonNeg(v, in); ok {
+				nonneg = true
+			}
+		}
+		ob.Ok, ob.Why = nonneg && hi <= sl, fmt.Sprintf("slice bound within an array of %d", sl)
+		if !ob.Ok {
+			ob.Why = fmt.Sprintf("the array has %d elements and no dominating guard bounds %s to 0..%d", sl, e, sl)
+		}
 	}
 	return ob, true
 }
